@@ -425,7 +425,6 @@ func pure(e ast.Expr) bool {
 	return false
 }
 
-
 // isPkgVar reports whether obj is a package-level variable of the module.
 func isPkgVar(obj types.Object) bool {
 	v, ok := obj.(*types.Var)
